@@ -382,9 +382,16 @@ class ClassObject(Object, Callable):
     @cached_property
     def _attrs(self):
         # type: () -> Attributes
-        attrs = {}
-        for b in reversed(self.bases):
-            attrs.update(b._attrs)
+        attrs = {}  # type: Attributes
+        if not getattr(self, '_merging', False):
+            # (a class that is its own base, e.g. through a cycle of imports,
+            # must not merge itself again)
+            self._merging = True
+            try:
+                for b in reversed(self.bases):
+                    attrs.update(b._attrs)
+            finally:
+                self._merging = False
         attrs.update(self._cls_attrs)
         return attrs
 
@@ -424,10 +431,15 @@ class InstanceValue(Object):
         # attributes assigned through self in the methods of the class and of
         # its bases (leftmost base strongest, the class itself strongest of all)
         attrs = {}  # type: Attributes
-        for b in reversed(self.cls.bases):
-            o = b.call(self.ctx)
-            if isinstance(o, InstanceValue):
-                attrs.update(o._inst_attrs)
+        if not getattr(self, '_merging', False):
+            self._merging = True
+            try:
+                for b in reversed(self.cls.bases):
+                    o = b.call(self.ctx)
+                    if isinstance(o, InstanceValue):
+                        attrs.update(o._inst_attrs)
+            finally:
+                self._merging = False
         attrs.update(self.cls.scope.top.assigns(self.ctx).get(self, {}))
         return attrs
 
